@@ -150,8 +150,11 @@ def drain_rules(ctx, prog, fname="reproc_drain"):
                    "buffer that was read into, and the number of bytes read (0 when the stream just closed)", ok,
                    {"sink": which, "stream_arg": show(stream), "read_stream": show(rs), "size": show(size)[:40], "context": show(ctxv)},
                    nontrivial=True)
-    ctx.floor("C16.G1", 2)
-    ctx.floor("C16.G2", 4)
+    # every kind of dispatch must exist: data and end-of-stream (size 0) for each of the two streams
+    kinds = {(k[1], k[4]) for k in seen if k and k[0] == "disp"}
+    need = {("out", "data"), ("out", "epipe"), ("err", "data"), ("err", "epipe")}
+    ctx.ob("C16.G2e", "%s: dispatch kinds" % fname, "each stream's sink is called for data and once with size zero when that stream closes",
+           need <= kinds, {"missing": sorted(need - kinds)}, nontrivial=True)
     # stream selection: OUT when the out event bit is set, ERR otherwise
     for e in res.events:
         kind, fn, n, info, s, stack = e[:6]
@@ -197,7 +200,8 @@ def drain_rules(ctx, prog, fname="reproc_drain"):
             ok, want = False, "?"
         ctx.ob("C16.G3", "%s returns after %s" % (fname, "/".join(str(x) for x in last) if last else "?"),
                "the value returned is %s" % want, ok, {"returns": show(rv)[:80]}, nontrivial=True)
-    ctx.floor("C16.G3", 5)
+    ctx.floor("C16.G3", 3)
+    ctx.floor("C16.G1", 2)
     # guards: null sink functions are rejected without any call
     for which in ("out", "err"):
         st2 = st.copy()
